@@ -14,7 +14,29 @@ def collect(ctx, rand_n):
     big = [v for k, v in enumerate(v for v in vecs if v["id"].startswith(("size-", "total-"))) if (k + ctx.seed) % mod == 0]
     vecs = small + big
     vecs += kernel.rand_vectors(ctx, "updown", rand_n)
+    vecs.append(wide_vector(ctx))
     return kernel.run_vectors(ctx, "updown", vecs, timeout=6000)
+
+
+def wide_vector(ctx):
+    """12,000 columns, one target with 10,500 SNPs (its `updown list` row is longer than 64 kB), in the middle of the file."""
+    import random
+    rng = random.Random(ctx.seed + 99)
+    w = 12000
+    nxt = {"A": "C", "C": "G", "G": "T", "T": "A"}
+    ref = [rng.choice("ACGT") for _ in range(w)]
+
+    def mut(src, sites):
+        s = list(src)
+        for p in sites:
+            s[p] = nxt[s[p]]
+        return s
+    q1 = mut(ref, [10, 500, 9000])
+    q2 = mut(ref, [10, 20, 30, 40, 11000])
+    targets = [mut(ref, [10]), mut(q1, [7000]), mut(ref, rng.sample(range(w), 10500)), mut(ref, [10, 500]), list(ref), mut(q2, [5])]
+    opts = {"sizetotal": 0, "sizeup": 0, "sizedown": 0, "sizeside": 0, "sizesame": 0, "distall": w, "distup": 0, "distdown": 0, "distside": 0,
+            "push": 0, "nofill": False, "thrnum": 4, "thrden": 4, "thrtarget": 10000, "ignore": [], "table": True}
+    return {"id": "wide-12000", "wide": True, "ref": ref, "queries": [q1, q2], "targets": targets, "opts": opts, "combos": True}
 
 
 def nontrivial(r):
